@@ -1053,6 +1053,350 @@ LOG_TOUCHING_SITES = ('Integration.', 'PhiManip.', 'Godambe.', 'Inference._objec
                       'LowPass.make_low_pass_func', 'Demes.SFS', 'Spectrum.from_demes')
 
 
+# ======================================================================================================================
+# alphabet extension (round 5): (1) the paths that return without doing the work - zero-duration epochs of every
+# integrator (T = 0 and T == initial_t > 0; constant / function-valued parameters; frozen flags), all-frozen epochs,
+# admixture proportions 0 / 1, projection to the same sizes, marginalising over nothing, identity reorderings, folding
+# a folded spectrum (refused); (2) the CONTAINER of the parameter vector / bounds / index lists / grid-size list:
+# list, tuple, float64 ndarray, integer ndarray, for the uncertainty entry points (both theta conventions, log / linear
+# parameters), the derivative helpers and the optimiser entry points.  The bases are enumerated in Memo.tla
+# (ZeroTab / TrivTab / GodCTab / ContTab).
+# ======================================================================================================================
+ZERO_KINDS = ('z0_c', 'z0_td', 'zi_c', 'zi_td', 'z0_fr')
+
+
+def _mk_int_zero(P, kind):
+    name = INT_FUNC[P] + '_' + kind
+
+    @reg(name, 'Integration.' + INT_FUNC[P], integrator=True)
+    def mk(lay, xl):
+        import dadi
+        n = INT_N[P]
+        xx = lay1(grid('A', n), xl)
+        phi = layn(phi_fix(P, n), lay)
+        f = getattr(dadi.Integration, INT_FUNC[P])
+        kw = _int_kwargs(P, kind.endswith('_td'))
+        if kind == 'z0_fr':
+            if P == 1:
+                kw['frozen'] = True
+            else:
+                kw['frozen1'] = True
+                for m in ('m12', 'm21', 'm31'):     # no migration to or from a frozen population
+                    if m in kw:
+                        kw[m] = 0
+        if kind.startswith('zi'):
+            T = 0.3                                  # the epoch starts and ends at t = 0.3
+            kw['initial_t'] = 0.3
+        else:
+            T = 0 if kind == 'z0_c' else 0.0         # (a divergence time on its lower bound; int and float zero)
+        return {'phi': phi, 'xx': xx}, (lambda a: f(a['phi'], a['xx'], T, **kw))
+
+
+for _P in range(1, 6):
+    for _kind in ZERO_KINDS:
+        _mk_int_zero(_P, _kind)
+
+
+def _mk_int_allfrozen(P):
+    @reg(INT_FUNC[P] + '_allfr', 'Integration.' + INT_FUNC[P], integrator=True)
+    def mk(lay, xl):
+        import dadi
+        n = INT_N[P]
+        xx = lay1(grid('A', n), xl)
+        phi = layn(phi_fix(P, n), lay)
+        f = getattr(dadi.Integration, INT_FUNC[P])
+        if P == 1:
+            kw = {'nu': 1.7, 'frozen': True}
+        else:
+            kw = {'nu%d' % k: 1.0 + 0.2 * k for k in range(1, P + 1)}
+            kw.update({'frozen%d' % k: True for k in range(1, P + 1)})
+        return {'phi': phi, 'xx': xx}, (lambda a: f(a['phi'], a['xx'], 0.004, **kw))
+
+
+for _P in range(1, 6):
+    _mk_int_allfrozen(_P)
+
+
+@reg('one_pop_X_z0_c', 'Integration.one_pop_X', integrator=True)
+def _opxz(lay, xl):
+    import dadi
+    xx = lay1(grid('A', 10), xl)
+    phi = layn(phi_fix(1, 10), lay)
+    return {'phi': phi, 'xx': xx}, (lambda a: dadi.Integration.one_pop_X(a['phi'], a['xx'], 0, nu=1.7, gamma=-0.8, h=0.3, beta=1.5, alpha=2.0, theta0=1.3))
+
+
+# ---- PhiManip / Spectrum / Numerics / Misc: degenerate arguments --------------------------------------------------------
+_mk_phim('phi_2D_to_3D_admix_f0', 'phi_2D_to_3D_admix', 2, 6, lambda PM, a: PM.phi_2D_to_3D_admix(a['phi'], 0, a['xx'], a['xx'], a['xx']))
+_mk_phim('phi_2D_to_3D_admix_f1', 'phi_2D_to_3D_admix', 2, 6, lambda PM, a: PM.phi_2D_to_3D_admix(a['phi'], 1.0, a['xx'], a['xx'], a['xx']))
+_mk_phim('phi_3D_to_4D_f0', 'phi_3D_to_4D', 3, 5, lambda PM, a: PM.phi_3D_to_4D(a['phi'], 0, 0, a['xx'], a['xx'], a['xx'], a['xx']))
+_mk_phim('phi_2D_admix_1_into_2_f0', 'phi_2D_admix_1_into_2', 2, 8, lambda PM, a: PM.phi_2D_admix_1_into_2(a['phi'], 0, a['xx'], a['xx']))
+_mk_phim('reorder_pops_3d_identity', 'reorder_pops', 3, 6, lambda PM, a: PM.reorder_pops(a['phi'], [1, 2, 3]))
+
+
+@reg('filter_pops_3d_all', 'PhiManip.filter_pops')
+def _fp3all(lay, xl):
+    import dadi
+    return ({'phi': layn(phi_fix(3, 6), lay), 'xx': lay1(grid('A', 6), xl), 'tokeep': [1, 2, 3]},
+            (lambda a: dadi.PhiManip.filter_pops(a['phi'], a['xx'], a['tokeep'])))
+
+
+_mk_fs('project_2d_64_64_same', 'Spectrum.project', (7, 5), lambda fs: fs.project([6, 4]))
+_mk_fs('fold_folded_2d', 'Spectrum.fold', (5, 4), lambda fs: fs.fold(), folded=True)              # refused: ValueError
+_mk_fs('unfold_unfolded_2d', 'Spectrum.unfold', (5, 4), lambda fs: fs.unfold())                     # refused: ValueError
+_mk_fs('marginalize_2d_none', 'Spectrum.marginalize', (5, 4), lambda fs: fs.marginalize([]))
+_mk_fs('reorder_fs_3d_identity', 'Spectrum.reorder_pops', (4, 3, 3), lambda fs: fs.reorder_pops([1, 2, 3]))
+_mk_fs('filter_3d_all', 'Spectrum.filter_pops', (4, 3, 3), lambda fs: fs.filter_pops([1, 2, 3]))
+_mk_fs('apply_anc_state_misid_2d_p0', 'Numerics.apply_anc_state_misid', (5, 4), lambda fs: _N().apply_anc_state_misid(fs, 0))
+
+
+@reg('perturb_params_fold0', 'Misc.perturb_params')
+def _pp0(lay, xl):
+    import dadi
+    np = _np()
+
+    def run(a):
+        np.random.seed(7)
+        return np.asarray(dadi.Misc.perturb_params(a['params'], fold=0))
+    return {'params': np.array([1.5, 0.2, 3.0])}, run
+
+
+# ---- the container of vector arguments ---------------------------------------------------------------------------------
+CONTAINERS = ('list', 'tuple', 'f64', 'i64')
+
+
+def _cont(values, c, ints=None, index=False):
+    """The vector `values` in container c.  The integer array holds `ints` (a vector of whole numbers: another point
+    of the parameter space).  index=True: a vector of indices / sizes (whole numbers): both array containers are
+    integer arrays."""
+    np = _np()
+    if c == 'list':
+        return list(values)
+    if c == 'tuple':
+        return tuple(values)
+    if index:
+        return np.array(values, dtype=np.int64)
+    if c == 'f64':
+        return np.array(values, dtype=np.float64)
+    if c == 'i64':
+        return np.array(values if ints is None else ints, dtype=np.int64)
+    raise KeyError(c)
+
+
+def _god_boots(c):
+    import dadi
+    np = _np()
+    bs = [dadi.Spectrum(np.array([0.0, 36.0 + 2 * k, 16.0 - k, 7.0 + (k % 2), 5.0, 4.0 - (k % 3), 0.0])) for k in range(4)]
+    return tuple(bs) if c == 'tuple' else bs
+
+
+GODC_ENTRIES = {'cfim': 'FIM_uncert', 'cgim': 'GIM_uncert', 'cgod': 'get_godambe', 'clrt': 'LRT_adjust', 'cscore': 'score_stat',
+                'cwald': 'Wald_stat'}
+
+
+def _mk_godc(entry, th, scale, c):
+    """entry point x theta convention (mn: multinom=True, the model has no theta parameter; th: multinom=False, theta is
+    the explicit last parameter) x parameter scale (lin / log) x container of p0, grid_pts, nested_indices, full_params."""
+    name = '%s_%s_%s_%s' % (entry, th, scale, c)
+    site = GODC_ENTRIES[entry]
+
+    @reg(name, 'Godambe.' + site)
+    def mk(lay, xl):
+        import dadi
+        np = _np()
+        multinom = th == 'mn'
+        p0 = _cont([1.8, 0.12] if multinom else [1.8, 0.12, 25.0], c, ints=[2, 1] if multinom else [2, 1, 25])
+        args = {'p0': p0, 'pts': _cont([10], c, index=True), 'data': god_data()}
+        if entry in ('clrt', 'cscore', 'cwald'):
+            args['nested_indices'] = _cont([1], 'list' if c == 'tuple' else c, index=True)     # (used as a numpy index: a tuple would address one element)
+        if entry == 'cwald':
+            args['full_params'] = _cont([1.8, 0.15] if multinom else [1.8, 0.15, 25.0], c, ints=[2, 2] if multinom else [2, 2, 25])
+        if entry != 'cfim':
+            args['all_boot'] = _god_boots(c)
+        if entry in ('cgim', 'cgod', 'clrt') and not multinom:
+            args['boot_theta_adjusts'] = [1.0, 0.95, 1.05, 1.0]
+        func = model_A if multinom else _PERSISTENT['A']
+        log = scale == 'log'
+
+        def run(a):
+            G = dadi.Godambe
+            CURRENT['model'] = 'A'
+            # the memo key holds the function object the derivatives are taken of: the caller's function when theta is
+            # explicit and the entry point differentiates it directly; otherwise a closure made inside the call
+            CURRENT['fn'] = 'named' if (not multinom and entry in ('cfim', 'cgim', 'cgod')) else 't%d' % CURRENT['k']
+            if entry == 'cfim':
+                return np.asarray(G.FIM_uncert(func, a['pts'], a['p0'], a['data'], log=log, multinom=multinom, eps=0.05))
+            if entry == 'cgim':
+                return np.asarray(G.GIM_uncert(func, a['pts'], a['all_boot'], a['p0'], a['data'], log=log, multinom=multinom, eps=0.05,
+                                               boot_theta_adjusts=a.get('boot_theta_adjusts')))
+            if entry == 'cgod':
+                return [np.asarray(x) for x in G.get_godambe(func, a['pts'], a['all_boot'], a['p0'], a['data'], 0.05, log=log,
+                                                             boot_theta_adjusts=a['boot_theta_adjusts'])]
+            if entry == 'clrt':
+                return float(G.LRT_adjust(func, a['pts'], a['all_boot'], a['p0'], a['data'], a['nested_indices'], multinom=multinom, eps=0.05,
+                                          boot_theta_adjusts=a.get('boot_theta_adjusts')))
+            if entry == 'cscore':
+                return [float(x) for x in G.score_stat(func, a['pts'], a['all_boot'], a['p0'], a['data'], a['nested_indices'], multinom=multinom,
+                                                       eps=0.05, adj_and_org=True)]
+            return [float(x) for x in G.Wald_stat(func, a['pts'], a['all_boot'], a['p0'], a['data'], a['nested_indices'], a['full_params'],
+                                                  multinom=multinom, eps=0.05, adj_and_org=True)]
+        return args, run
+
+
+for _e in ('cfim', 'cgim'):
+    for _th in ('mn', 'th'):
+        for _sc in ('lin', 'log'):
+            for _c in CONTAINERS:
+                _mk_godc(_e, _th, _sc, _c)
+for _sc in ('lin', 'log'):
+    for _c in CONTAINERS:
+        _mk_godc('cgod', 'th', _sc, _c)
+for _e in ('clrt', 'cscore', 'cwald'):
+    for _th in ('mn', 'th'):
+        for _c in CONTAINERS:
+            _mk_godc(_e, _th, 'lin', _c)
+
+
+def _mk_deriv_c(which, c):
+    @reg('get_%s_quadratic_%s' % (which, c), 'Godambe.get_' + which)
+    def mk(lay, xl):
+        import dadi
+        f = lambda p, c_: -(c_[0] * (p[0] - 1.0) ** 2 + c_[1] * (p[1] + 0.5) ** 2 + 0.3 * p[0] * p[1])
+        g = getattr(dadi.Godambe, 'get_' + which)
+        return ({'p0': _cont([1.2, -0.4], c, ints=[2, -1]), 'c': _cont([2.0, 3.0], c, ints=[2, 3])},
+                (lambda a: g(f, a['p0'], 0.01, args=[a['c']])))
+
+
+for _c in CONTAINERS[1:]:
+    _mk_deriv_c('hess', _c)
+    _mk_deriv_c('grad', _c)
+
+
+def _mk_opt_c(name, site, call, c):
+    """The optimiser entry points with start point, bounds and grid sizes in container c (no None entries in an array)."""
+    @reg('%s_%s' % (name, c), site)
+    def mk(lay, xl):
+        import io
+        data = god_data()
+
+        def run(a):
+            CURRENT['model'] = 'A'
+            np = _np()
+            r = call(__import__('dadi').Inference, a, io.StringIO())
+            return np.asarray(r)
+        if c == 'tuple':
+            lb, ub, fx = (0.1, None), (None, 3.0), (None, 0.12)
+        else:
+            lb, ub, fx = _cont([0.1, 0.01], c, ints=[1, 1]), _cont([10.0, 3.0], c, ints=[10, 3]), [None, 0.12 if c == 'f64' else 1]
+        return {'p0': _cont([1.8, 0.12], c, ints=[2, 1]), 'data': data, 'pts': _cont([10], c, index=True),
+                'lower_bound': lb, 'upper_bound': ub, 'fixed_params': fx}, run
+
+
+_OPTS = [('optimize_log_A', 'Inference.optimize_log', lambda I, a, out: I.optimize_log(a['p0'], a['data'], model_A, a['pts'], **_okw(a, out))),
+         ('optimize_A', 'Inference.optimize', lambda I, a, out: I.optimize(a['p0'], a['data'], model_A, a['pts'], **_okw(a, out))),
+         ('optimize_log_fmin_A', 'Inference.optimize_log_fmin', lambda I, a, out: I.optimize_log_fmin(a['p0'], a['data'], model_A, a['pts'], **_okw(a, out))),
+         ('optimize_log_lbfgsb_A', 'Inference.optimize_log_lbfgsb', lambda I, a, out: I.optimize_log_lbfgsb(a['p0'], a['data'], model_A, a['pts'], **_okw(a, out))),
+         ('optimize_lbfgsb_A', 'Inference.optimize_lbfgsb', lambda I, a, out: I.optimize_lbfgsb(a['p0'], a['data'], model_A, a['pts'], **_okw(a, out))),
+         ('opt_nlopt_A', 'Inference.opt', lambda I, a, out: I.opt(a['p0'], a['data'], model_A, a['pts'],
+                                                                   lower_bound=a['lower_bound'] if a['lower_bound'][1] is not None else [0.1, 0.01],
+                                                                   upper_bound=a['upper_bound'] if a['upper_bound'][0] is not None else [10.0, 3.0],
+                                                                   fixed_params=a['fixed_params'], maxeval=4)[0])]
+for _n, _s, _f in _OPTS:
+    for _c in CONTAINERS[1:]:
+        _mk_opt_c(_n, _s, _f, _c)
+
+
+def _mk_objfunc_c(c):
+    @reg('object_func_A_%s' % c, 'Inference._object_func')
+    def mk(lay, xl):
+        import dadi
+        import io
+
+        def run(a):
+            CURRENT['model'] = 'A'
+            return float(dadi.Inference._object_func(a['params'], a['data'], model_A, a['pts'], lower_bound=a['lower_bound'],
+                                                     upper_bound=a['upper_bound'], verbose=0, output_stream=io.StringIO()))
+        return {'params': _cont([1.8, 0.12], c, ints=[2, 1]), 'data': god_data(), 'pts': _cont([10], c, index=True),
+                'lower_bound': _cont([0.1, 0.01], c, ints=[1, 1]), 'upper_bound': _cont([10.0, 3.0], c, ints=[10, 3])}, run
+
+
+for _c in CONTAINERS[1:]:
+    _mk_objfunc_c(_c)
+
+
+def _mk_perturb_c(c):
+    @reg('perturb_params_%s' % c, 'Misc.perturb_params')
+    def mk(lay, xl):
+        import dadi
+        np = _np()
+
+        def run(a):
+            np.random.seed(9)
+            return np.asarray(dadi.Misc.perturb_params(a['params'], fold=1, lower_bound=a['lower_bound'], upper_bound=a['upper_bound']))
+        return {'params': _cont([1.5, 0.2, 3.0], c, ints=[2, 1, 3]), 'lower_bound': _cont([0.1, 0.1, 0.1], c, ints=[1, 1, 1]),
+                'upper_bound': _cont([10.0, 10.0, 10.0], c, ints=[10, 10, 10])}, run
+
+
+for _c in ('tuple', 'i64'):
+    _mk_perturb_c(_c)
+
+
+def _mk_extrap_c(c):
+    @reg('extrap_func_A_%s' % c, 'Numerics.make_extrap_func')
+    def mk(lay, xl):
+        def run(a):
+            CURRENT['model'] = 'A'
+            return _N().make_extrap_func(model_A)(a['params'], a['ns'], a['pts'])
+        return {'params': _cont([1.8, 0.12], c, ints=[2, 1]), 'ns': _cont([6], c, index=True), 'pts': _cont([8, 10, 12], c, index=True)}, run
+
+
+for _c in CONTAINERS[1:]:
+    _mk_extrap_c(_c)
+
+
+@reg('project_2d_64_43_nstuple', 'Spectrum.project')
+def _pjt(lay, xl):
+    return {'fs': fs_fix((7, 5), 11), 'ns': (4, 3)}, (lambda a: a['fs'].project(a['ns']))
+
+
+@reg('from_phi_2d_43_A_tuples', 'Spectrum.from_phi')
+def _fpt(lay, xl):
+    import dadi
+    xx = grid('A', 8)
+    return ({'phi': phi_fix(2, 8), 'ns': (4, 3), 'xxs': (xx, xx.copy())},
+            (lambda a: dadi.Spectrum.from_phi(a['phi'], a['ns'], a['xxs'])))
+
+
+@reg('from_phi_inb_2d_42_arrays', 'Spectrum.from_phi_inbreeding')
+def _fpia(lay, xl):
+    import dadi
+    np = _np()
+    xx = grid('A', 7)
+    return ({'phi': phi_fix(2, 7), 'xxs': (xx, xx.copy()), 'ns': np.array([4, 2]), 'Fs': np.array([0.3, 0.3]), 'ploidys': np.array([2, 2])},
+            (lambda a: dadi.Spectrum.from_phi_inbreeding(a['phi'], a['ns'], a['xxs'], a['Fs'], a['ploidys'])))
+
+
+@reg('from_data_dict_2d_43_tuples', 'Spectrum.from_data_dict')
+def _fddt(lay, xl):
+    import dadi
+    dd = data_dict_fix(2)
+    return {'pop_ids': ('A', 'B'), 'projections': (4, 3)}, (lambda a: dadi.Spectrum.from_data_dict(dd, a['pop_ids'], a['projections']))
+
+
+@reg('demes_sfs_present_containers', 'Demes.SFS')
+def _dsc(lay, xl):
+    np = _np()
+    g = demes_graph_fix()
+    return ({'sampled_demes': ('A', 'B'), 'sample_sizes': np.array([4, 2])},
+            (lambda a: _D().Demes.SFS(g, a['sampled_demes'], a['sample_sizes'], 8)))
+
+
+@reg('ms_command_containers', 'Misc.ms_command')
+def _mscc(lay, xl):
+    import dadi
+    np = _np()
+    return {'ns': np.array([4, 6]), 'seeds': (1, 2, 3)}, (lambda a: dadi.Misc.ms_command(1.5, a['ns'], '-n 1 0.5 -ej 0.1 2 1', 10, seeds=a['seeds']))
+
+
 # --------------------------------------------------------------------------------------------------
 # evaluation of one call
 # --------------------------------------------------------------------------------------------------
@@ -1093,7 +1437,20 @@ def evaluate(cid, detailed=False):
         sh = False
         if isinstance(res, np.ndarray) and isinstance(v, np.ndarray):
             sh = bool(np.shares_memory(np.asarray(res), np.asarray(v)))
-        argobs.append({'name': k, 'before': before[k], 'after': argdig(v), 'shares': sh})
+        argobs.append({'name': k, 'before': before[k], 'after': argdig(v), 'shares': sh, 'same_object': res is v})
+    # the follow-up a caller of an integrator makes: work on the returned density IN PLACE (every entry is rewritten),
+    # then look at the arguments again.  (Integrators only: other calls may hand out objects held by a memo table.)
+    wrote = False
+    if ent['integrator'] and isinstance(res, np.ndarray) and res.dtype.kind == 'f':
+        try:
+            res *= -2.0
+            res -= 1.0
+            wrote = True
+        except Exception:
+            wrote = False
+    for o, (k, v) in zip(argobs, args.items()):
+        o['afterw'] = argdig(v) if wrote else o['after']
+        o['wrote'] = wrote
     return out, argobs, res
 
 
